@@ -2,7 +2,7 @@
 constant-size array and every dereference through a tracked pointer cursor must be in bounds
 under the function's guards, the parameter joins and the declared field invariants - or be
 listed, site by site, in the property's trusted table (contract / relational / value-set)."""
-from . import atoms, ex, ivl
+from . import atoms, ex, ivl, normalize
 
 DEBUG_ONLY = ("dump", "xdump", "_debug")
 
@@ -70,6 +70,9 @@ def run(ctx, run, units, trusted, floor_subs, floor_cur=0, skip_debug=True):
                 used.add(key)
                 run.holds("RF-IVL", key, "TRUSTED (not decided by the interval analysis, index interval %s of %d): %s"
                           % (v.iv, cnt, trusted[key]), loc, nontrivial=False)
+            elif v.status == "unproven" and not normalize.known_subscript(f, canon(f, node)):
+                run.undecided("RF-IVL", key, "%s: a subscript that did not exist when the tables were confirmed, and no bound "
+                              "for its index is stated in %s() (%s): neither proven nor contradicted" % (desc[:80], f.name, v.why), loc)
             else:
                 run.violation("RF-IVL", key, "%s: index interval %s against %d elements: %s" % (desc[:90], v.iv, cnt, v.why), loc,
                               witness={"function": f.name, "subscript": desc, "index_interval": list(v.iv) if v.iv else None,
